@@ -529,6 +529,28 @@ func runC17(b *runner.Batch) {
 		v.addCandidate(k)
 	}
 	payee := world.Hash160Of(world.Key(b.Seed, b.Index, "payee", 0))
+	// first of all, on a list of ballots that is still empty (every second batch with four or more keys): an older ballot
+	// X with threshold-1 votes, a younger one Y with one vote, the Alphabet is cut down to its first two keys, and then a
+	// key that stays repeats its vote for X — the votes on record now suffice, X is decided there (and only X is closed);
+	// the other key's vote for X afterwards opens a new round, its vote for Y completes Y (seeded change C17-10: the
+	// closed ballot looked for from the tail of the list, the head never compared)
+	if n >= 4 && idx%2 == 1 {
+		t := v.threshold()
+		for c := 0; c < t-1; c++ {
+			v.runBlock([]*call{v.setConfigCall(c, "shrX")})
+		}
+		v.runBlock([]*call{v.setConfigCall(0, "shrY")})
+		nl := append([][]byte{}, v.alphabet[:2]...)
+		for c := 0; c < t && len(v.alphabet) > 2; c++ {
+			v.runBlock([]*call{v.alphabetUpdateCall(c, "shr-upd", nl)})
+		}
+		if len(v.alphabet) == 2 {
+			v.runBlock([]*call{v.setConfigCall(0, "shrX")})
+			v.runBlock([]*call{v.setConfigCall(1, "shrX")})
+			v.runBlock([]*call{v.setConfigCall(1, "shrY")})
+			b.Hit("repeated-vote-decides-after-the-list-shrank")
+		}
+	}
 	// canonical: every Alphabet key votes once for one decision of each method (fires exactly at the threshold)
 	for mi, mk := range []func(c int) *call{
 		func(c int) *call { return v.setConfigCall(c, "canon-cfg") },
